@@ -901,10 +901,11 @@ shift(bitint383_t cand[static 3U], const unsigned int y, echs_shift_t sh)
 						nu_b += b && !echs_shift_inv_p(sh);
 					}
 				}
-				/* 384 == -1 == 4 mod 5  384 == -1 == 6 mod 7 */
-				u5 = (w + 384 + nu_b) % 5U;
+				/* 35839 == -1 == 4 mod 5  35839 == -1 == 6 mod 7
+				 * and big enough to keep the sums positive */
+				u5 = (w + 35839 + nu_b) % 5U;
 				nu_b = nu_b / 5 * 7 + nu_b % 5;
-				u7 = (w + 384 + nu_b) % 7U;
+				u7 = (w + 35839 + nu_b) % 7U;
 				/* u5 is the day we want to be on, Mon=0
 				 * u7 is the day we land on, Mon=0 */
 				nu_d += nu_b;
